@@ -34,7 +34,7 @@ RULE = ('synthetic casts of 3-2000 levels (log-uniform + edge sizes), thermoclin
         '0-6 extra variables with exact zeros, pressure supplied or not, recognised unit systems; err in {0} U [1e-6,0.5]; stabilisation on/off; coarsen / stabilize / compute_pressure '
         '(all four documented (sign of depth, fs_loc) combinations) / extract_profile (raw records with a surface yo-yo and an up-cast, any depth column, p_col or None, z_start) called '
         'directly, and Profile(...) built through array / xarray / netCDF file / open netCDF dataset / BaseProfile with the variables in canonical or shuffled order, with and without a pressure variable '
-        '(also with extra variables), plus negative-depth (surface-first / bottom-first) and positive bottom-first casts through Profile(); a case is non-trivial when (function, levels, columns, err, options) is new')
+        '(also with extra variables), plus negative-depth (surface-first / bottom-first) and positive bottom-first casts through Profile(); for every third cast (units that need converting) ONE table and ONE Dataset built from it are handed to all input forms in random order without copies (caller data unchanged, same profile, rebuild identical); a case is non-trivial when (function, levels, columns, err, options) is new')
 LEVEL_NOTE = ('theorems over the reals about a hand-written model of coarsen / stabilize / compute_pressure / extract_profile, tied to the real code by differential execution '
               '(tolerance 1e-11, exact row selection); the format adapters are covered by a test only')
 SCRATCH = '/root/scratch/c07'
@@ -606,6 +606,78 @@ def profile_cases(ctx, rng, b, viol, cast, origin, workdir):
                   'shapes': [list(d0.shape), list(d1.shape)]}, lambda: {'first': tab(d0), 'second': tab(d1)})
 
 
+def dataset_meaning(ds, names):
+    """the values a Dataset stands for, in standard units: value * factor + offset under the label each variable carries NOW"""
+    cols = [sp.from_units(np.array(ds.coords[names[0]].values, dtype=float), str(ds.coords[names[0]].attrs['units']))]
+    for nm in names[1:]:
+        cols.append(sp.from_units(np.array(ds[nm].values, dtype=float), str(ds[nm].attrs['units'])))
+    return np.column_stack(cols)
+
+
+def same_object_case(ctx, rng, b, viol, origin, workdir):
+    """the way a user script does it: ONE numpy table (in units that need converting) and ONE xarray Dataset built from it
+    (views, no copies) are handed to Profile() through every input form, in random order, some forms twice — nothing is
+    copied between the constructions.  (1) the caller's data must be unchanged after every construction, (2) all forms and
+    (3) repeated constructions must give the same profile, which (4) must hold rows of the (independently converted) input."""
+    cast = sp.make_cast(rng, 3, 400, with_pressure=True, n_extra=rng.choice([1, 1, 2, 3]), convert=True, shuffle_order=0.0)
+    err = pick_err(rng)
+    stab = rng.random() < 0.6
+    data, names, units = sp.cast_table(cast)              # the caller's table
+    data0 = data.copy()                                   # (kept by the harness only to judge)
+    std0 = np.column_stack([sp.from_units(data0[:, j], units[j]) for j in range(data0.shape[1])])
+    ds = sp.make_xarray(data, names, units, copy=False)   # the caller's Dataset: views of the same table
+    seq = ['array', 'xarray', 'ncdataset', 'ncfile', 'array', 'xarray']
+    rng.shuffle(seq)
+    ctx.count('pred:same-object')
+    small = {'function': 'ambient.Profile', 'sequence': seq, 'units': units, 'err': err, 'stabilize_profile': stab,
+             'origin': dict(origin, cast=cast['meta'])}
+    full = lambda: {'caller_table_before': tab(data0), 'names': names}
+    first = None
+    for k, route in enumerate(seq):
+        ctx.evaluations += 1
+        ctx.count('same-object:' + route)
+        with quiet():
+            try:
+                bt = sp.build_from_object(ds if route == 'xarray' else data, names, units, route, workdir, err=err, stabilize=stab)
+            except Exception as e:
+                viol('construct-raised:same-object:%s:%s' % (route, type(e).__name__), 'constructing a profile from the caller\'s own object raised',
+                     dict(small, position=k, raised='%s: %s' % (type(e).__name__, str(e)[:160])), full)
+                continue
+        p = bt.profile
+        idata, fnames = np.array(p.interp_data, dtype=float), [str(x) for x in p.f_names]
+        zr = (float(p.z_min), float(p.z_max))
+        bt.close()
+        # (1) the caller's table, bit for bit; the caller's Dataset: what it MEANS (tamoc converts the Dataset it is handed in
+        #     place, values and labels together — counted, reported separately)
+        if not same(data, data0):
+            j = int(np.argwhere(~((data == data0) | (np.isnan(data) & np.isnan(data0))))[0][1])
+            viol('construction-mutates-input:' + route, 'constructing a profile changed the caller\'s numpy table (its units list still names the old units)',
+                 dict(small, position=k, column=names[j], unit=units[j], before=float(data0[0, j]), after=float(data[0, j])), full)
+            data[:] = data0          # restore, so that every later form is judged on its own
+        mean = dataset_meaning(ds, names)
+        if not close_arr(mean, std0):
+            viol('construction-mutates-input:%s:dataset' % route, 'constructing a profile changed what the caller\'s Dataset stands for (values no longer match their unit labels)',
+                 dict(small, position=k), full)
+        elif str(ds[names[1]].attrs['units']) != units[1]:
+            ctx.count('observed:dataset-converted-in-place(values+labels)')
+        # (4) rows of the independently converted input
+        cols = [0] + [1 + fnames.index(nm) for nm in names[1:] if nm in fnames]
+        if len(cols) != len(names) or match_rows(idata[:, cols], std0) is None:
+            viol('profile-row-not-in-input', 'a stored row is not a row of the (unit-converted) input',
+                 dict(small, position=k, route=route, first_stored_row=idata[0].tolist(), first_input_row=std0[0].tolist()), full)
+        # (2), (3)
+        if first is None:
+            first = (route, idata, fnames, zr)
+        else:
+            r0, d0, n0, zr0 = first
+            ok = sorted(n0) == sorted(fnames) and d0.shape == idata.shape and same(d0[:, 0], idata[:, 0]) and zr0 == zr \
+                and all(same(d0[:, 1 + n0.index(nm)], idata[:, 1 + fnames.index(nm)]) for nm in n0)
+            if not ok:
+                viol(('rebuild-differs:' + route) if route == r0 else 'adapter-mismatch:%s-vs-%s' % (route, r0),
+                     'the same object handed to Profile() again / in another input form gives a different profile',
+                     dict(small, position=k, routes=[r0, route], first_rows=[d0[0].tolist(), idata[0].tolist()]), full)
+
+
 def raw_record_profile(ctx, rng, viol, cast, origin):
     """raw record -> extract_profile -> Profile: stored depths must be strictly increasing"""
     from tamoc import ambient
@@ -760,6 +832,8 @@ def _run(ctx, lean_ok, workdir):
         ctx.count('levels:%s' % ('3-9' if len(cast['z']) < 10 else '10-99' if len(cast['z']) < 100 else '100-999' if len(cast['z']) < 1000 else '1000-2000'))
         function_cases(ctx, rng, b, viol, cast, origin)
         profile_cases(ctx, rng, b, viol, cast, origin, workdir)
+        if ci % 3 == 0:
+            same_object_case(ctx, rng, b, viol, origin, workdir)
         if rng.random() < 0.5:
             raw_record_profile(ctx, rng, viol, cast, origin)
         if rng.random() < 0.5 or ci < 12:
@@ -788,7 +862,8 @@ def _run(ctx, lean_ok, workdir):
               ('pred:pressure:pos-desc', 3), ('pred:pressure:neg-desc', 3), ('pred:extract', 40), ('pred:extract-surface-row', 3),
               ('pred:profile', 100), ('pred:units', 100), ('pred:adapters', 60), ('pred:convention', 20), ('pred:raw-record-profile', 5),
               ('coarsen:dropped-rows', 8), ('stabilize:dropped-rows', 8), ('order:non-canonical', 8), ('cast:no-pressure+extras', 1),
-              ('cast:no-pressure', 3)] + [('route:' + r, 15) for r in ('array', 'xarray', 'ncfile', 'ncdataset', 'baseprofile')]
+              ('cast:no-pressure', 3), ('pred:same-object', max(1, (ncast + 2) // 3)), ('same-object:array', 30), ('same-object:xarray', 30),
+              ('same-object:ncfile', 15), ('same-object:ncdataset', 15)] + [('route:' + r, 15) for r in ('array', 'xarray', 'ncfile', 'ncdataset', 'baseprofile')]
     low = [(k, h.get(k, 0), f) for k, f in floors if h.get(k, 0) < f]
     ctx.oblige('coverage floors: every function, input form, depth convention and rare configuration exercised (%d counters)' % len(floors),
                not low, 'below floor (counter, seen, floor): %r' % low)
